@@ -142,32 +142,34 @@ func handleInv(raw json.RawMessage) interface{} {
 		sb.WriteString("导入《@JSON》\n导入《@文件》\n导入《@测试》\n输入" + strings.Join(names, "、") + "\n")
 		switch c.Acc {
 		case "get":
-			sb.WriteString("输出甲之" + c.Name + "\n")
+			sb.WriteString("输出【甲之" + c.Name + "】\n")
 		case "set":
 			sb.WriteString("甲之" + c.Name + " = 乙1\n输出甲之" + c.Name + "\n")
 		case "call":
+			// the result is USED (stored in a list literal) before it is returned: a nil element handed back by a member
+			// must show up as such, whatever the statement machinery does with a nil at the end of a body
 			if c.Recv == "free" {
-				sb.WriteString("输出（" + c.Name)
+				sb.WriteString("输出【（" + c.Name)
 			} else {
-				sb.WriteString("输出以甲（" + c.Name)
+				sb.WriteString("输出【以甲（" + c.Name)
 			}
 			if len(an) > 0 {
 				sb.WriteString("：" + strings.Join(an, "、"))
 			}
-			sb.WriteString("）\n")
+			sb.WriteString("）】\n")
 		case "new":
-			sb.WriteString("输出（新建" + c.Name)
+			sb.WriteString("输出【（新建" + c.Name)
 			if len(an) > 0 {
 				sb.WriteString("：" + strings.Join(an, "、"))
 			}
-			sb.WriteString("）\n")
+			sb.WriteString("）】\n")
 		}
 		src = sb.String()
 	}
 	o := zn.RunScriptLibs(src, in, libs())
 	res := map[string]interface{}{"obs": "zn-error", "msg": lastLine(o.Msg), "code": o.Code}
 	if o.Obs == "value" {
-		if o.Val["t"] == "nil" {
+		if hasNil(o.Val) {
 			res = map[string]interface{}{"obs": "nil-value"}
 		} else {
 			res = map[string]interface{}{"obs": "value"}
@@ -177,6 +179,30 @@ func handleInv(raw json.RawMessage) interface{} {
 		res["src"] = src
 	}
 	return res
+}
+
+// hasNil - a nil element anywhere in the snapshot of a value
+func hasNil(x interface{}) bool {
+	switch v := x.(type) {
+	case zn.V:
+		return hasNil(map[string]interface{}(v))
+	case map[string]interface{}:
+		if v["t"] == "nil" {
+			return true
+		}
+		for _, y := range v {
+			if hasNil(y) {
+				return true
+			}
+		}
+	case []interface{}:
+		for _, y := range v {
+			if hasNil(y) {
+				return true
+			}
+		}
+	}
+	return false
 }
 
 func init() { pool.Register("inv", handleInv) }
